@@ -182,6 +182,15 @@ UNITS += [
       domain="empty fragment x {pragma option, none} x symbolic options", mem_gb=16, timeout=2400, unwindset={"memcmp.0": 16}, assumes=[A_DROP, A_CLONE, A_FMT]),
 ]
 
+UNITS += [
+    U("U-optimize-frame", ["VueJsxTransformVisitor::transform_attrs[plain arm]"], ["optframe_class", "optframe_on", "optframe_listener", "optframe_other"], ["C12"],
+      domain="2-safety: two visitors that differ only in `optimize`; name classes {class, on, listener, other} x symbolic host kind, constness and other options: the contributed props / merge arguments are identical",
+      mem_gb=8, timeout=900, unwindset={"memcmp.0": 21}, assumes=[A_DROP, A_CLONE, A_TT, A_CONST, A_FMT, A_EXTRACT]),
+]
+for _u in UNITS:
+    if _u["id"] in ("U-emit-hints", "U-wrap", "U-children") and "C12" not in _u["props"]:
+        _u["props"].append("C12")
+
 CANARY = dict(harness="canary_must_fail", timeout=300, mem_gb=4)
 
 PROPERTIES = {}
